@@ -46,6 +46,7 @@ M = {
     "M30_dupscan_adjacent": ("src/metadata.c", "\t\tfor (prev = head->first; prev != first; prev = prev->next)\n\t\t{\n\t\t\tif (!strcmp(first->name, prev->name))", "\t\tfor (prev = head->first; prev != first; prev = prev->next)\n\t\t{\n\t\t\tif (prev->next == first && !strcmp(first->name, prev->name))", ["C10"], [], False),
     "M31_fifth_group_mask": ("src/internals.c", "(uch & 0x70)", "(uch & 0x40)", ["C16"], [], False),
     "M32_skip_negative_ok": ("src/object.c", "\t\t\t\tif (skip < 0)\n\t\t\t\t{\n\t\t\t\t\treturn SBDF_ERROR_INVALID_SIZE;\n\t\t\t\t}\n", "\t\t\t\tif (skip < -4)\n\t\t\t\t{\n\t\t\t\t\treturn SBDF_ERROR_INVALID_SIZE;\n\t\t\t\t}\n", ["C09", "C07"], [], False),
+    "M33_ts_write_fewer": ("src/tableslice.c", "slice->no_columns != slice->table_metadata->no_columns", "slice->no_columns > slice->table_metadata->no_columns", ["C01"], ["C11"], False),
     # harmless rewrites: no check may report
     "H01_growth_x2": ("src/internals.c", "cap = 1 + cap * 3 / 2;", "cap = 1 + cap * 2;", [], ["C11", "C14", "C01", "C05"], True),
     "H02_obj401_io": ("src/object.c", "if (fwrite(*data, 1, length, f) != length)\n\t\t\t\t\t\t{\n\t\t\t\t\t\t\treturn SBDF_ERROR_OUT_OF_MEMORY;", "if (fwrite(*data, 1, length, f) != length)\n\t\t\t\t\t\t{\n\t\t\t\t\t\t\treturn SBDF_ERROR_IO;", [], ["C13", "C01", "C03"], True),
